@@ -312,4 +312,112 @@ theorem a75G : T.action 75 33 = some (.reduce 51) := by decide
 theorem a74G : T.action 74 33 = some (.reduce 57) := by decide
 theorem a33G : T.action 33 33 = some (.reduce 52) := by decide
 
+/-! first-item redirections -/
+theorem a0g : T.action 0 57 = some (.shift 46) := by decide
+theorem a0l : T.action 0 56 = some (.shift 47) := by decide
+theorem a0G : T.action 0 33 = some (.shift 48) := by decide
+theorem g0_62 : T.goto 0 62 = some 34 := by decide
+theorem a61g : T.action 61 57 = some (.shift 46) := by decide
+theorem a61l : T.action 61 56 = some (.shift 47) := by decide
+theorem a61G : T.action 61 33 = some (.shift 48) := by decide
+theorem g61_62 : T.goto 61 62 = some 34 := by decide
+theorem a134g : T.action 134 57 = some (.shift 46) := by decide
+theorem a134l : T.action 134 56 = some (.shift 47) := by decide
+theorem a134G : T.action 134 33 = some (.shift 48) := by decide
+theorem g134_62 : T.goto 134 62 = some 34 := by decide
+theorem a135g : T.action 135 57 = some (.shift 46) := by decide
+theorem a135l : T.action 135 56 = some (.shift 47) := by decide
+theorem a135G : T.action 135 33 = some (.shift 48) := by decide
+theorem g135_62 : T.goto 135 62 = some 34 := by decide
+theorem a136g : T.action 136 57 = some (.shift 46) := by decide
+theorem a136l : T.action 136 56 = some (.shift 47) := by decide
+theorem a136G : T.action 136 33 = some (.shift 48) := by decide
+theorem g136_62 : T.goto 136 62 = some 34 := by decide
+theorem a62g : T.action 62 57 = some (.reduce 167) := by decide
+theorem a62l : T.action 62 56 = some (.reduce 167) := by decide
+theorem a62G : T.action 62 33 = some (.reduce 167) := by decide
+theorem a63g : T.action 63 57 = some (.reduce 167) := by decide
+theorem a63l : T.action 63 56 = some (.reduce 167) := by decide
+theorem a63G : T.action 63 33 = some (.reduce 167) := by decide
+theorem a64g : T.action 64 57 = some (.reduce 167) := by decide
+theorem a64l : T.action 64 56 = some (.reduce 167) := by decide
+theorem a64G : T.action 64 33 = some (.reduce 167) := by decide
+theorem a81g : T.action 81 57 = some (.reduce 146) := by decide
+theorem a81l : T.action 81 56 = some (.reduce 146) := by decide
+theorem a81G : T.action 81 33 = some (.reduce 146) := by decide
+
+/-! file-descriptor prefixes -/
+theorem a29N : T.action 29 27 = some (.reduce 51) := by decide
+theorem a33N : T.action 33 27 = some (.reduce 52) := by decide
+theorem a75N : T.action 75 27 = some (.reduce 51) := by decide
+theorem a74N : T.action 74 27 = some (.reduce 57) := by decide
+theorem a17N : T.action 17 27 = some (.reduce 56) := by decide
+theorem a34N : T.action 34 27 = some (.reduce 53) := by decide
+theorem a118N : T.action 118 27 = some (.reduce 13) := by decide
+theorem a119N : T.action 119 27 = some (.reduce 14) := by decide
+theorem a120N : T.action 120 27 = some (.reduce 19) := by decide
+theorem a165w : T.action 165 24 = some (.reduce 15) := by decide
+theorem a165A : T.action 165 25 = some (.reduce 15) := by decide
+theorem a165n : T.action 165 55 = some (.reduce 15) := by decide
+theorem a165s : T.action 165 53 = some (.reduce 15) := by decide
+theorem a165b : T.action 165 52 = some (.reduce 15) := by decide
+theorem a165a : T.action 165 31 = some (.reduce 15) := by decide
+theorem a165o : T.action 165 32 = some (.reduce 15) := by decide
+theorem a165g : T.action 165 57 = some (.reduce 15) := by decide
+theorem a165l : T.action 165 56 = some (.reduce 15) := by decide
+theorem a165G : T.action 165 33 = some (.reduce 15) := by decide
+theorem a165N : T.action 165 27 = some (.reduce 15) := by decide
+theorem d165 : T.dflt 165 = none := by decide
+theorem a166w : T.action 166 24 = some (.reduce 16) := by decide
+theorem a166A : T.action 166 25 = some (.reduce 16) := by decide
+theorem a166n : T.action 166 55 = some (.reduce 16) := by decide
+theorem a166s : T.action 166 53 = some (.reduce 16) := by decide
+theorem a166b : T.action 166 52 = some (.reduce 16) := by decide
+theorem a166a : T.action 166 31 = some (.reduce 16) := by decide
+theorem a166o : T.action 166 32 = some (.reduce 16) := by decide
+theorem a166g : T.action 166 57 = some (.reduce 16) := by decide
+theorem a166l : T.action 166 56 = some (.reduce 16) := by decide
+theorem a166G : T.action 166 33 = some (.reduce 16) := by decide
+theorem a166N : T.action 166 27 = some (.reduce 16) := by decide
+theorem d166 : T.dflt 166 = none := by decide
+theorem a167w : T.action 167 24 = some (.reduce 20) := by decide
+theorem a167A : T.action 167 25 = some (.reduce 20) := by decide
+theorem a167n : T.action 167 55 = some (.reduce 20) := by decide
+theorem a167s : T.action 167 53 = some (.reduce 20) := by decide
+theorem a167b : T.action 167 52 = some (.reduce 20) := by decide
+theorem a167a : T.action 167 31 = some (.reduce 20) := by decide
+theorem a167o : T.action 167 32 = some (.reduce 20) := by decide
+theorem a167g : T.action 167 57 = some (.reduce 20) := by decide
+theorem a167l : T.action 167 56 = some (.reduce 20) := by decide
+theorem a167G : T.action 167 33 = some (.reduce 20) := by decide
+theorem a167N : T.action 167 27 = some (.reduce 20) := by decide
+theorem d167 : T.dflt 167 = none := by decide
+theorem a0N : T.action 0 27 = some (.shift 43) := by decide
+theorem a61N : T.action 61 27 = some (.shift 43) := by decide
+theorem a134N : T.action 134 27 = some (.shift 43) := by decide
+theorem a135N : T.action 135 27 = some (.shift 43) := by decide
+theorem a136N : T.action 136 27 = some (.shift 43) := by decide
+theorem a13N : T.action 13 27 = some (.shift 43) := by decide
+theorem a62N : T.action 62 27 = some (.reduce 167) := by decide
+theorem a63N : T.action 63 27 = some (.reduce 167) := by decide
+theorem a64N : T.action 64 27 = some (.reduce 167) := by decide
+theorem a81N : T.action 81 27 = some (.reduce 146) := by decide
+theorem d43 : T.dflt 43 = none := by decide
+theorem a43g : T.action 43 57 = some (.shift 99) := by decide
+theorem d99 : T.dflt 99 = none := by decide
+theorem a99w : T.action 99 24 = some (.shift 165) := by decide
+theorem a43l : T.action 43 56 = some (.shift 100) := by decide
+theorem d100 : T.dflt 100 = none := by decide
+theorem a100w : T.action 100 24 = some (.shift 166) := by decide
+theorem a43G : T.action 43 33 = some (.shift 101) := by decide
+theorem d101 : T.dflt 101 = none := by decide
+theorem a101w : T.action 101 24 = some (.shift 167) := by decide
+theorem p15 : T.prods[15]? = some (62, [27, 57, 24]) := by decide
+theorem f15 : Gen.prodFuncs.getD 15 "" = "p_redirection" := by decide
+theorem p16 : T.prods[16]? = some (62, [27, 56, 24]) := by decide
+theorem f16 : Gen.prodFuncs.getD 16 "" = "p_redirection" := by decide
+theorem p20 : T.prods[20]? = some (62, [27, 33, 24]) := by decide
+theorem f20 : Gen.prodFuncs.getD 20 "" = "p_redirection" := by decide
+theorem symNUM : TokType.NUMBER.sym = 27 := by decide
+
 end Bashlex.C02.Tab
